@@ -196,6 +196,12 @@ def render_expr(e, lang, sp):
         return 'min([%s])' % ', '.join(R(x) for x in e[1:])
     if k == 'bsumlist':
         return 'sum([%s])' % ', '.join(R(x) for x in e[1:])
+    if k == 'bmaxgen':
+        return 'max(int(v) for v in %s.split(%s))' % (R(e[1]), lit_text(e[2], sp.quote))
+    if k == 'bminmap':
+        return 'min(map(int, %s.split(%s)))' % (R(e[1]), lit_text(e[2], sp.quote))
+    if k == 'bsumgen':
+        return 'sum(int(v) for v in %s.split(%s))' % (R(e[1]), lit_text(e[2], sp.quote))
     if k == 'agg':
         name = {'U': e[1], 'l': e[1].lower(), 'C': e[1][0] + e[1][1:].lower()}[e[2]]
         arg = e[3]
@@ -324,7 +330,7 @@ def safe_get(rec, i):
     return rec[i] if (rec is not None and 0 <= i < len(rec)) else None
 
 
-PY_ONLY = frozenset(['toint', 'tofloat', 'bmax', 'bmin', 'bminlist', 'bsumlist', 'call', 'tuple'])
+PY_ONLY = frozenset(['toint', 'tofloat', 'bmax', 'bmin', 'bminlist', 'bsumlist', 'bmaxgen', 'bminmap', 'bsumgen', 'call', 'tuple'])
 
 
 def ev(e, env):
@@ -436,6 +442,12 @@ def ev(e, env):
         return min([ev(x, env) for x in e[1:]])
     if k == 'bsumlist':
         return sum([ev(x, env) for x in e[1:]])
+    if k == 'bmaxgen':
+        return max(int(v) for v in ev(e[1], env).split(e[2]))
+    if k == 'bminmap':
+        return min(map(int, ev(e[1], env).split(e[2])))
+    if k == 'bsumgen':
+        return sum(int(v) for v in ev(e[1], env).split(e[2]))
     if k == 'alias':
         return ev(e[1], env)
     raise AssertionError(e)
@@ -577,6 +589,10 @@ def check_b_keys(q, B):
 
 def evaluate_neutral(q, A, B=None, a_names=None, b_names=None):
     """Reference outcome for the language-neutral reading, or None if the case feeds an operator with operands on which Python and JavaScript differ."""
+    exprs = list(q.get('items') or []) + [q.get('where')] + list(q.get('group') or []) + (list(q['order']['keys']) if q.get('order') else []) + [r for _, r in (q.get('assign') or [])]
+    for e in exprs:
+        if e is not None and any(isinstance(x, tuple) and x and x[0] in PY_ONLY for x in walk(e)):
+            return None      # Python-only vocabulary: never language-neutral, whatever the table
     STRICT[0] = True
     try:
         return evaluate(q, A, B, a_names, b_names)
